@@ -77,12 +77,22 @@ def circuit_boolean_optimizer(
         if preserve:
             symbols = list(map(lambda x: f"q{x}", preserve))
 
-        qc_sec = exprs_to_quantum(exprs=n_exps, symbols=symbols, compiler=compiler)
+        try:
+            qc_sec = exprs_to_quantum(exprs=n_exps, symbols=symbols, compiler=compiler)
+        except Exception:
+            # the section cannot be resynthesized: keep it as it is
+            continue
 
         if (
             len(qc_sec.gates) > len(section.gates)
             or (qc_sec.used_qubits - section_qubits) != set()
         ):
+            continue
+
+        # the new gates can replace the old ones only if every result is computed in place:
+        # a qubit name that moved to another qubit (i.e. a swap compiled as a relabelling)
+        # is not something the spliced gates perform
+        if any(qc_sec.qubit_map.get(s) != qc.qubit_map[s] for s in symbols):
             continue
 
         # Replace the circuit section with the new one
